@@ -107,12 +107,12 @@ type File struct {
 }
 
 type Prog struct {
-	Files []*File `json:"files"`
-	Root  int     `json:"root"`
-	ISeed uint64  `json:"iseed"`  // how definition kinds are interleaved in the rendered text
-	Expect string `json:"expect"` // "ok", or the error class the single injected fault must give
-	Shape  string `json:"shape"`  // generator's label
-	Fixed  bool   `json:"fixed,omitempty"` // hand-written case: reported as it is, not shrunk
+	Files  []*File `json:"files"`
+	Root   int     `json:"root"`
+	ISeed  uint64  `json:"iseed"`           // how definition kinds are interleaved in the rendered text
+	Expect string  `json:"expect"`          // "ok", or the error class the single injected fault must give
+	Shape  string  `json:"shape"`           // generator's label
+	Fixed  bool    `json:"fixed,omitempty"` // hand-written case: reported as it is, not shrunk
 }
 
 // ---------------------------------------------------------------- IDL text
@@ -275,8 +275,8 @@ func (p *Prog) Render() map[string]string {
 type enc struct{ sb strings.Builder }
 
 func (e *enc) tok(s string) { e.sb.WriteByte(' '); e.sb.WriteString(s) }
-func (e *enc) n(i int)       { e.tok(strconv.Itoa(i)) }
-func (e *enc) hex(s string)  { e.tok(vl.Hex(s)) }
+func (e *enc) n(i int)      { e.tok(strconv.Itoa(i)) }
+func (e *enc) hex(s string) { e.tok(vl.Hex(s)) }
 
 func (e *enc) typ(t *TypeX) {
 	switch t.K {
